@@ -18,6 +18,7 @@ EXPLANATION = (
     "last_read >= left => done; (R6) a BufMut wrapper forwards buffer_init iff it forwards parts (pool hooks); "
     "(R7) extract variants return the inner buffer; reset asserts Complete (LIFE-8). Byte-exact outcomes for every "
     "short-transfer sequence are not decided."
+    " Also decided: (R3 polarity) the successful exit lies on the edge on which nothing is left (all(len == 0) / parts().1 == 0, negations resolved); (R9) the iovec walk of the vectored composites: count from self.skip, decreased by the element length on the fully-transferred edge, element emptied, partial element advanced by the count, walk stops; (R10) buffer wrappers pass set_init/buffer_init on with the same count on every path and record last_read; (R11 = C14.R9) the iovec views' set_len/skip/len/ptr do what the walk assumes."
 )
 NOT_DECIDED = "byte-exact outcomes for all sequences of short transfer sizes"
 ASSUMPTIONS = ["the inner operations report the number of bytes transferred (C13.R5)"]
